@@ -4,7 +4,8 @@ import itertools
 SCHEMES = ['http', 'HTTP', 'https', 'ftp', 'ws', 'wss', 'gopher']
 USERINFO = ['', 'u@', 'u:p@', '%41:p%40@', 'a%3ab:c%2fd@', ':@', 'ü:é@', ':é@', ':%FFs@', ':p€@',
             '€@', '%e2%82%ac:@', 'a%2541@', 'u:p%2541%25@', 'a%25:%@']
-HOSTS = ['a', 'A.TEST', 'a.', 'ａ.test', 'ß.test', 'xn--bcher-kva.test', '0x7f.1', '０x7f',
+HOSTS = ['127.1', '1.2.3.256', '1_0', '127.0.1', '0177.0x000001', '256.1', '1.65536', '+1', '1.2.3.4.5',
+         '0x.0x.0x.0x', '08.1', '4294967296', 'a', 'A.TEST', 'a.', 'ａ.test', 'ß.test', 'xn--bcher-kva.test', '0x7f.1', '０x7f',
          '１２７.1', '127.0.0.1', '2130706433', '017700000001', '0177.0.0.1', '1.2.3', '[::1]',
          '[0:0:0:0:0:0:0:1]', '[::ffff:1.2.3.4]', '[::FFFF:102:304]', '0x7F.0.0.1',
          'bücher.test', 'BÜCHER.test', '1.2.3.4.', '192.168.0.1', '0300.0250.0.1',
@@ -80,6 +81,8 @@ RESPELL_FAMILIES = [
     ('http', ['127.0.0.1', '0x7f.0.0.1', '0177.0.0.1', '2130706433', '0x7f000001',
               '017700000001', '１２７.0.0.1', '0X7f.0.0.1', '0X7F000001', '0x7F.0X0.0.1'], 8080,
      ['/', ''], ''),
+    ('http', ['127.0.0.1', '127.1', '127.0.1', '0x7f.1', '0177.0x000001', '127.0.0.1.', '127.1.',
+              '0x7f.0.1'], 8080, ['/'], ''),
     ('https', ['[::1]', '[0:0:0:0:0:0:0:1]', '[0::1]', '[0000:0000::0001]'], 443,
      ['/a%2fb', '/a%2Fb'], ''),
     ('http', ['[::ffff:1.2.3.4]', '[::FFFF:102:304]', '[0:0:0:0:0:ffff:0102:0304]'], 80,
